@@ -95,7 +95,7 @@ class MarginalRateTaxScale(RateTaxScaleLike):
         # Insert threshold_low and threshold_high without modifying rates
         if threshold_low not in self.thresholds:
             index = bisect.bisect_right(self.thresholds, threshold_low) - 1
-            self.add_bracket(threshold_low, self.rates[index])
+            self.add_bracket(threshold_low, self.rates[index] if index >= 0 else 0)
 
         if threshold_high and threshold_high not in self.thresholds:
             index = bisect.bisect_right(self.thresholds, threshold_high) - 1
